@@ -61,7 +61,7 @@ BASE_EXC, TYPE_SUB = 1 << 30, 1 << 31
 
 
 def T():
-    return int(os.environ.get('VF_QTIMEOUT', '120'))
+    return int(os.environ.get('VF_QTIMEOUT', '300'))
 
 
 # ---------------------------------------------------------------------------------------------------------------------------
@@ -265,7 +265,11 @@ class ExcTracker(C35.Tracker):
         ex.stubs['__Pyx_ErrRestoreWithState'] = wrap_restore('__Pyx_ErrRestoreWithState', 0)
 
 
-def check_kernel(fn):
+PARTS = {'exc_continue': 4}      # balance obligations of the largest kernel are spread over this many worker processes
+
+
+def check_kernel(fn, part=0, nparts=1):
+    """part 0 discharges every obligation of the kernel and its share of the per-object balance queries; parts > 0 only their share"""
     out = []
     t0 = time.time()
     try:
@@ -299,24 +303,69 @@ def check_kernel(fn):
         if r == 'sat' and kind_ == 'unsat':
             d['cex'] = cexf(m)
         out.append(d)
-    if not fn.startswith('reraise'):
-        ob('whatever path leaves the function (normal end, continue, break, return from the handler, error), the handled-exception state is what it was on entry',
-           [rg, tr.exc_info != 0])
-        matched = [f for f in tr.flags if 'ExceptionMatches' in str(f)]
-        ob('reach: an exception was caught and handled, normal return', [rg, ret.bv != 0] + ([z3.Or(*[f == 1 for f in matched])] if matched else []), kind_='witness')
-    else:
-        # bare raise in a finally clause entered by an exception: the propagating exception (fetched at the entry of the clause) is re-raised
-        okr = z3.BoolVal(False)
-        for (g, p) in tr.restored:
-            for ok, first in tr.fetched:
-                okr = z3.Or(okr, z3.And(g, ok, p.bv == z3.BitVecVal(first.base, 64)))
-        failing = z3.Or(*[ok for ok, _ in tr.fetched]) if tr.fetched else z3.BoolVal(False)
-        ob('the exception re-raised by the bare `raise` is the one that was propagating into the finally clause', [rg, failing, z3.Not(okr)])
-        ob('reach: finally entered by an exception', [rg, failing], kind_='witness')
+    if part == 0:
+        if not fn.startswith('reraise'):
+            ob('whatever path leaves the function (normal end, continue, break, return from the handler, error), the handled-exception state is what it was on entry',
+               [rg, tr.exc_info != 0])
+            matched = [f for f in tr.flags if 'ExceptionMatches' in str(f)]
+            ob('reach: an exception was caught and handled, normal return', [rg, ret.bv != 0] + ([z3.Or(*[f == 1 for f in matched])] if matched else []), kind_='witness')
+        else:
+            # bare raise in a finally clause entered by an exception: the propagating exception (fetched at the entry of the clause) is re-raised
+            okr = z3.BoolVal(False)
+            for (g, p) in tr.restored:
+                for ok, first in tr.fetched:
+                    okr = z3.Or(okr, z3.And(g, ok, p.bv == z3.BitVecVal(first.base, 64)))
+            failing = z3.Or(*[ok for ok, _ in tr.fetched]) if tr.fetched else z3.BoolVal(False)
+            ob('the exception re-raised by the bare `raise` is the one that was propagating into the finally clause', [rg, failing, z3.Not(okr)])
+            ob('reach: finally entered by an exception', [rg, failing], kind_='witness')
+    # references: one query per tracked object (the disjunction over all objects is unsatisfiable iff every disjunct is).  The single big
+    # query took 85-125 s of z3 time depending on term order; the per-object ones take < 15 s each and are shared between PARTS[fn] processes
     bal = tr.balance(ret, rg)
     if bal:
-        ob('references balanced on every path (as C35)', [z3.Or(*[c for _, c, _, _ in bal])])
+        d = dict(name='%s: references balanced on every path (as C35)' % fn, s=0.0, mandatory=True, status='proved', balance=True, nobj=0, total=len(bal), max_s=0.0,
+                 order=','.join(n for n, _, _, _ in bal))
+        for _, c, _, _ in bal[part::nparts]:
+            r, m, s_ = solve.check(pre + [c], T())
+            d['s'] += s_
+            d['nobj'] += 1
+            d['max_s'] = max(d['max_s'], s_)
+            if r == 'sat':
+                d['status'] = 'refuted'
+                d['cex'] = cexf(m)
+                break
+            if r != 'unsat':
+                d['status'] = 'inconclusive'
+        out.append(d)
     return out
+
+
+def merge_balance(results):
+    """one `references balanced` obligation per kernel from the shares of its parts: refuted if any share is, else inconclusive if any is"""
+    merged = []
+    for d in results:
+        if d.get('balance'):
+            first = next((x for x in merged if x.get('balance') and x['name'] == d['name']), None)
+            if first is not None:
+                first['s'] += d['s']
+                first['nobj'] += d['nobj']
+                first['max_s'] = max(first['max_s'], d['max_s'])
+                rank = ['proved', 'inconclusive', 'refuted']
+                if rank.index(d['status']) > rank.index(first['status']):
+                    first['status'] = d['status']
+                    if 'cex' in d:
+                        first['cex'] = d['cex']
+                if d['order'] != first['order']:      # the parts must have split the same object list
+                    first['split_ok'] = False
+                continue
+        merged.append(d)
+    for d in merged:
+        if d.get('balance'):
+            if (d['nobj'] != d['total'] or not d.get('split_ok', True)) and d['status'] == 'proved':
+                d['status'], d['detail'] = 'inconclusive', 'the parts did not cover the object list (%d of %d)' % (d['nobj'], d['total'])
+            elif d['status'] != 'refuted':
+                d['detail'] = '%d per-object queries, slowest %.1f s (limit %d s each)' % (d['nobj'], d['max_s'], T())
+            d['name'] = '%s: %d objects' % (d['name'], d['total'])
+    return merged
 
 
 REPLAY = r'''
@@ -394,6 +443,45 @@ else:
             try: py_rif(boom)
             except BaseException as e: return (type(e).__name__, type(e.__context__).__name__)
     if run() != runp(): bad.append(('reraise', run(), runp()))
+    # references (counterexamples of the balance obligations): every exception raised inside a kernel must be dead after the call,
+    # and the arguments must keep their reference counts
+    import gc, weakref
+    class VE(ValueError): pass
+    live = []
+    def t_raise(i=None):
+        e = VE(i); live.append(weakref.ref(e)); raise e
+    def t_boom(i=None):
+        e = Bx(i); live.append(weakref.ref(e)); raise e
+    def t_ok(i=None): return None
+    def leak_probe(label, thunk, keep):
+        del live[:]
+        thunk(); gc.collect()                     # warm-up (caches, interned objects)
+        del live[:]
+        before = [sys.getrefcount(k) for k in keep]
+        try: thunk()
+        except BaseException: pass
+        gc.collect()
+        after = [sys.getrefcount(k) for k in keep]
+        if any(r() is not None for r in live): bad.append((label, 'exception object still alive after the call'))
+        if before != after: bad.append((label, 'argument reference counts', before, after))
+    def quiet(f, *a):
+        def run():
+            try: return f(*a)
+            except BaseException: return None
+        return run
+    for f in (t_raise, t_ok, t_boom):
+        for fn in ('exc_continue', 'exc_break'):
+            for items in ([1], [1, 2, 3]):
+                leak_probe((fn, f.__name__, len(items)), quiet(getattr(M, fn), items, f), [items, f])
+        for fn in ('exc_return', 'exc_pass'):
+            for g in (t_ok, t_boom):
+                leak_probe((fn, f.__name__, g.__name__), quiet(getattr(M, fn), f, g), [f, g])
+        for g in (t_ok, t_boom, t_raise):
+            leak_probe(('reraise_nested', f.__name__, g.__name__), quiet(M.reraise_nested, f, g), [f, g])
+        def in_handler():
+            try: raise A(1)
+            except A: return quiet(M.reraise_in_finally, f)()
+        leak_probe(('reraise_in_finally', f.__name__), in_handler, [f])
 print('REPLAY', bad[:4])
 print('REPLAY-REPRODUCED' if bad else 'REPLAY-HOLDS')
 '''
@@ -416,7 +504,7 @@ def replay(rep, cex):
 
 
 def worker(job):
-    return check_raise(None) if job == 'raise' else check_kernel(job)
+    return check_raise(None) if job == 'raise' else check_kernel(*job)
 
 
 def _init(B):
@@ -430,7 +518,8 @@ def run(rep, tier, only=None):
     snapshot.activate()
     _B = harness.build_template('c22t', TEMPLATE)
     C35._B = _B
-    jobs = [j for j in ['raise'] + list(KERNELS) if not only or only in j]
+    names = [j for j in ['raise'] + list(KERNELS) if not only or only in j]
+    jobs = [j if j == 'raise' else (j, k, PARTS.get(j, 1)) for j in names for k in range(1 if j == 'raise' else PARTS.get(j, 1))]
     rep.functions += ['Cython/Utility/Exceptions.c: __Pyx_Raise (RaiseException); generated code of 4 try/except kernels leaving the handler by fall-through, continue, break and return, '
                       'and of a bare raise inside a finally clause (Nodes.TryExceptStatNode / ExceptClauseNode / TryFinallyStatNode) [%s]' % build.sha(_B.cfile)]
     rep.bounds += ['__Pyx_Raise: every classification of the type operand (exception instance / exception class / other), value (absent, None, exception instance, tuple, other), '
@@ -439,9 +528,10 @@ def run(rep, tier, only=None):
                    '__Pyx_ExceptionSave / __Pyx_GetException / __Pyx_ExceptionReset',
                    'outside: exception groups and except*, with statements (C35 covers their references), generators, the traceback objects, __context__ chaining done by CPython itself']
     rep.assume('reference for raise: CPython ceval.c do_raise()', 'API contracts of C35')
-    with mp.Pool(min(8, os.cpu_count() or 4), initializer=_init, initargs=(_B,)) as pool:
+    with mp.Pool(min(len(jobs), os.cpu_count() or 4), initializer=_init, initargs=(_B,)) as pool:
         results = pool.map(worker, jobs, chunksize=1)
-    for job, res in zip(jobs, results):
+    results = [merge_balance([d for job, res in zip(jobs, results) if (job if job == 'raise' else job[0]) == nm for d in res]) for nm in names]
+    for job, res in zip(names, results):
         for d in res:
             if d['status'] == 'refuted':
                 ok, txt = replay(rep, d['cex'])
